@@ -18,7 +18,8 @@ PLAN = {
            + [("relabel_atoms(copy=True)", "StereoMolGraph", "quick", 1, ("fresh", "source"), 2)]
            # the argument given as a one-shot iterator (bounded mode: <= 1 element)
            + [("subgraph", c, "quick", 1, ("fresh", "source")) for c in ("MolGraph", "CondensedReactionGraph")]
-           + [("enantiomer", "StereoMolGraph", "quick", 1, ("fresh", "source")), ("enantiomer", "StereoCondensedReactionGraph", "quick", 1, ("fresh", "source"), 4)],
+           + [("enantiomer", "StereoMolGraph", "quick", 1, ("fresh", "source")), ("enantiomer", "StereoCondensedReactionGraph", "quick", 1, ("fresh", "source"), 4)]
+           + [("reverse_reaction", "CondensedReactionGraph", "quick", 1, ("fresh", "source"), 1), ("reverse_reaction", "StereoCondensedReactionGraph", "quick", 1, ("fresh", "source"), 3)],
     "C17": [("subgraph(any size)", c, "quick", 1, ("view", "wf")) for c in ("MolGraph", "CondensedReactionGraph")]
            # the stereo classes add loops over the descriptor / stereo-change tables: side-car invariants, one task per loop
            + [("subgraph(any size)", "StereoMolGraph", "quick", 1, ("view", "wf"), 2), ("subgraph(any size)", "StereoCondensedReactionGraph", "quick", 1, ("view", "wf"), 4)]
@@ -28,6 +29,9 @@ PLAN = {
     # 7th field: number of loops under invariant -> one task per loop (init + generic step) and one for the loop-free remainder
     "C06": [("enantiomer", "StereoMolGraph", "quick", 1, ("view", "wf", "fresh", "source")),
             ("enantiomer", "StereoCondensedReactionGraph", "quick", 1, ("view", "wf", "fresh", "source"), 4)],
+    # reverse_reaction: CRG one loop over the bonds, SCRG two more over the stereo-change tables of the copy
+    "C08": [("reverse_reaction", "CondensedReactionGraph", "quick", 1, ("view", "wf", "source"), 1),
+            ("reverse_reaction", "StereoCondensedReactionGraph", "quick", 1, ("view", "wf", "source"), 3)],
     "C11": [("relabel_atoms(copy=True)", c, "quick", 1, ("view", "wf", "source")) for c in ("MolGraph", "CondensedReactionGraph")]
            + [("relabel_atoms(copy=True)", "StereoMolGraph", "quick", 1, ("view", "wf", "source"), 2)],
 }
@@ -67,7 +71,7 @@ def tasks(pid, tier, timeout):
 
 def functions(world, pid):
     seen, out = set(), []
-    names = {"copy": "copy", "copy_constructor": "__init__", "subgraph": "subgraph", "subgraph(any size)": "subgraph", "enantiomer": "enantiomer", "relabel_atoms(copy=True)": "relabel_atoms"}
+    names = {"copy": "copy", "copy_constructor": "__init__", "subgraph": "subgraph", "subgraph(any size)": "subgraph", "enantiomer": "enantiomer", "relabel_atoms(copy=True)": "relabel_atoms", "reverse_reaction": "reverse_reaction"}
     if pid == "C06":
         out.append(src_info("stereodescriptors.py", "_StereoMixin.invert"))
     for dname, cname, *_ in PLAN.get(pid, []):
